@@ -19,6 +19,20 @@
 //   (`index = if self.assoc == Assoc::After { ptr.content_len } else { 0 };`) into `sticky_index_of_type`: After = END of the
 //   collection, Before = START.
 //
+//   For verdict levels the two steps (anchor contribution, contribution of one left element) are ALSO lifted on their own
+//   (`sticky_anchor_part`, `sticky_left_step`): an edit of either then fails a contract clause of real code, not just the
+//   loop invariant spliced into `sticky_index_of`.  Spec-level corollaries: lemma_visible_len_insert / _update (what happens
+//   LEFT of the anchor moves the position by exactly the visible units involved; nothing RIGHT of it enters the spec),
+//   lemma_invisible_anchor, lemma_before_after_adjacent.
+//
+// FINDING S1 (OPEN on the pinned tree; obligation `sticky::sticky_index_of_units::post`, clause
+//   `finding_s1_bytes_offset_kind(encoding) ==> r == sticky_position_spec(..)`): `right.start` is a CLOCK offset (UTF-16 units)
+//   but is added to index-unit sums; in a document with OffsetKind::Bytes a sticky index anchored inside a string block
+//   resolves to the wrong index (even into the middle of a character) as soon as a non-ASCII character precedes the gap inside
+//   the anchor block.  Smallest input: Doc{offset_kind: Bytes, client 1}; text "\u{e9}" (block 1#0, text.len() == 2);
+//   StickyIndex::from_id(ID(1, 0), Assoc::Before).get_offset().index == 1, the gap directly after the element is 2.
+//   The clause for Utf16 documents (the default) is PROVED.  See the comment at `sticky_index_of_units`.
+//
 // PART B -- BINARY SERIALIZATION.  `impl Encode / Decode for IndexScope`, `for StickyIndex` (and `for Assoc`, shared with unit
 //   `tags` by textual include of units/tags/assoc.rs) on top of the lib0 layer (units/lib0_common/*), `ClientID::decode`
 //   (the range check on an untrusted client id), `ID::new`, `StickyIndex::new`.
@@ -76,7 +90,6 @@ use std::convert::TryInto;
 verus! {
 
 /*@rules R9 R10
-   SUB(from=read::Error;;to=Error)
    SUB(from=Arc<str>;;to=Str)
 @*/
 
@@ -423,6 +436,9 @@ impl IndexScope {
             lemma_dec_id_frame(s0, k);
             lemma_suffix_trans(s0, s1);
             lemma_skip_skip_all(s0, k);
+            if dec_u64(s1) is Some {
+                lemma_suffix_trans(s0, s1.skip(dec_u64(s1)->Some_0.1 as int));
+            }
         }
     @*/
 }
@@ -581,9 +597,22 @@ pub trait ContentModel: Sized {
     /// for EVERY content-length function)
     spec fn len_spec(&self, kind: OffsetKind) -> u32;
 
+    /// the length, in `kind` units, of the first `k` CLOCK units of the content (clock units = block elements: array
+    /// elements, UTF-16 code units of a string -- `Item::len` is `content.len(OffsetKind::Utf16)` for every document,
+    /// whatever its offset kind).  Uninterpreted; only used by the index-unit form of the property (`sticky_position_spec`).
+    spec fn prefix_spec(&self, k: nat, kind: OffsetKind) -> nat;
+
     /// real: `ItemContent::len` (bodiless here)
     fn len(&self, kind: OffsetKind) -> (r: u32)
         ensures r == self.len_spec(kind);
+
+    /// LAW every content kind obeys (an obligation of an implementation, not an assumption of this unit's proofs about
+    /// Bytes): measured in UTF-16 units, k clock units ARE k index units
+    proof fn law_prefix_utf16(&self, k: nat)
+        requires
+            k <= self.len_spec(OffsetKind::Utf16),
+        ensures
+            self.prefix_spec(k, OffsetKind::Utf16) == k;
 }
 
 /// sliced + lowered, see the table at the top
@@ -664,6 +693,11 @@ pub open spec fn lefts<'a, C: ContentModel>(n: Option<&'a Item<'a, C>>, kind: Of
     }
 }
 
+/// the number of index units an element contributes to its collection
+pub open spec fn units(v: ItemView) -> nat {
+    if visible(v) { v.clen } else { 0 }
+}
+
 /// number of visible units in a run of elements
 pub open spec fn visible_len(s: Seq<ItemView>) -> nat
     decreases s.len(),
@@ -671,7 +705,7 @@ pub open spec fn visible_len(s: Seq<ItemView>) -> nat
     if s.len() == 0 {
         0
     } else {
-        (if visible(s[0]) { s[0].clen } else { 0 }) + visible_len(s.skip(1))
+        units(s[0]) + visible_len(s.skip(1))
     }
 }
 
@@ -681,7 +715,7 @@ pub open spec fn visible_before<'a, C: ContentModel>(n: Option<&'a Item<'a, C>>,
 {
     match n {
         None => 0,
-        Some(item) => (if visible(view_of(item, kind)) { view_of(item, kind).clen } else { 0 }) + visible_before(item.left, kind),
+        Some(item) => units(view_of(item, kind)) + visible_before(item.left, kind),
     }
 }
 
@@ -715,6 +749,88 @@ pub open spec fn anchor_part(anchor: ItemView, start: u32, assoc: Assoc) -> int 
 /// THE PROPERTY (C14 kernel): the position a block-relative sticky index resolves to
 pub open spec fn sticky_offset_spec<C: ContentModel>(right: ItemSlice<'_, C>, assoc: Assoc, kind: OffsetKind) -> int {
     visible_len(lefts(right.ptr.left, kind)) + anchor_part(view_of(right.ptr, kind), right.start, assoc)
+}
+
+/// THE PROPERTY in the collection's INDEX units (what `Offset::index` is documented to be: "human readable index", the unit
+/// `Text::insert` / `Text::len` use, i.e. bytes in a document with `OffsetKind::Bytes`): the units of the anchor block that
+/// precede the gap are measured in `kind`, like the units of the blocks to its left
+pub open spec fn anchor_units<C: ContentModel>(right: ItemSlice<'_, C>, assoc: Assoc, kind: OffsetKind) -> int {
+    if visible(view_of(right.ptr, kind)) {
+        right.ptr.content.prefix_spec(if assoc == Assoc::After { right.start as nat } else { (right.start + 1) as nat }, kind) as int
+    } else {
+        0
+    }
+}
+
+pub open spec fn sticky_position_spec<C: ContentModel>(right: ItemSlice<'_, C>, assoc: Assoc, kind: OffsetKind) -> int {
+    visible_len(lefts(right.ptr.left, kind)) + anchor_units(right, assoc, kind)
+}
+
+/// FINDING S1, input class: documents whose offset kind is Bytes
+pub open spec fn finding_s1_bytes_offset_kind(kind: OffsetKind) -> bool {
+    kind == OffsetKind::Bytes
+}
+
+// ---- C14 "keeps designating the same gap next to the same element", at the level of the specification.
+// `sticky_offset_spec` is a function of the anchor block and of what is LEFT of it only, so nothing that happens to the right
+// of the anchor can move the resolved position.  What happens to the left moves it by exactly the visible units involved:
+
+/// an element inserted anywhere into a run adds exactly its own units
+pub proof fn lemma_visible_len_insert(s: Seq<ItemView>, i: int, v: ItemView)
+    requires
+        0 <= i <= s.len(),
+    ensures
+        visible_len(s.insert(i, v)) == visible_len(s) + units(v),
+    decreases s.len(),
+{
+    let t = s.insert(i, v);
+    if i == 0 {
+        assert(t[0] == v);
+        assert(t.skip(1) =~= s);
+    } else {
+        assert(t[0] == s[0]);
+        assert(t.skip(1) =~= s.skip(1).insert(i - 1, v));
+        lemma_visible_len_insert(s.skip(1), i - 1, v);
+    }
+}
+
+/// an element that changes (e.g. is tombstoned) changes the count by exactly the difference of its units
+pub proof fn lemma_visible_len_update(s: Seq<ItemView>, i: int, v: ItemView)
+    requires
+        0 <= i < s.len(),
+    ensures
+        visible_len(s.update(i, v)) + units(s[i]) == visible_len(s) + units(v),
+    decreases s.len(),
+{
+    let t = s.update(i, v);
+    if i == 0 {
+        assert(t[0] == v);
+        assert(t.skip(1) =~= s.skip(1));
+    } else {
+        assert(t[0] == s[0]);
+        assert(t.skip(1) =~= s.skip(1).update(i - 1, v));
+        lemma_visible_len_update(s.skip(1), i - 1, v);
+    }
+}
+
+/// a deleted (or non-countable) anchor: the position is the number of visible units before it, whatever the association
+/// and the offset inside the block -- the gap where the element used to be
+pub proof fn lemma_invisible_anchor<C: ContentModel>(right: ItemSlice<'_, C>, assoc: Assoc, kind: OffsetKind)
+    requires
+        !visible(view_of(right.ptr, kind)),
+    ensures
+        sticky_offset_spec(right, assoc, kind) == visible_len(lefts(right.ptr.left, kind)),
+{
+}
+
+/// a visible anchor: Before and After of the same unit are the two gaps around that one unit
+pub proof fn lemma_before_after_adjacent<C: ContentModel>(right: ItemSlice<'_, C>, kind: OffsetKind)
+    requires
+        visible(view_of(right.ptr, kind)),
+    ensures
+        sticky_offset_spec(right, Assoc::Before, kind) == sticky_offset_spec(right, Assoc::After, kind) + 1,
+        sticky_offset_spec(right, Assoc::After, kind) == visible_len(lefts(right.ptr.left, kind)) + right.start,
+{
 }
 
 /// THE PROPERTY for a type-scoped sticky index (empty collection at creation): After = the END, Before = the START
@@ -776,7 +892,75 @@ impl<'a, C: ContentModel> ItemSlice<'a, C> {
     invariant
         index + visible_before(n, encoding) == idx0 + visible_before(right.ptr.left, encoding),
         idx0 + visible_before(right.ptr.left, encoding) <= u32::MAX,
+    ensures
+        // (checked where the `while let` pattern stops matching: nothing is left of `n`)
+        index == idx0 + visible_before(right.ptr.left, encoding),
     decreases n,
+@*/
+
+// FINDING S1 (obligation sticky::sticky_index_of_units::post, clause `finding_s1_bytes_offset_kind(encoding) ==> ..`).
+// The same statements once more, against the property in INDEX units.  `right.start` is a CLOCK offset (UTF-16 code units
+// for a string block) but it is added to `content_len(encoding)` sums, which are in index units: in a document with
+// `OffsetKind::Bytes` the two differ as soon as the anchor block holds a non-ASCII character before the anchored unit.
+// Concrete: Doc { offset_kind: Bytes, client_id: 1 }, text.insert(0, "\u{e9}") (one block 1#0, 1 clock unit, 2 bytes, text.len() == 2):
+//   StickyIndex::from_id(ID::new(ClientID::new(1), 0), Assoc::Before).get_offset(..).index == 1   (inside the character; the gap
+//   directly after the element is index 2);  with "\u{e9}\u{e9}\u{e9}": anchor 1#2, Assoc::After resolves to 2, the gap before it is 4.
+// For Utf16 documents (the default) the clause holds: `law_prefix_utf16`.
+/*@extract yrs/src/sticky_index.rs | impl StickyIndex | region get_offset | stmt=stmt:assign index | stmtnth=1 | upto=stmt:while | tail=index | label=sticky_index_of_units | rules=SUB(from=self.assoc;;to=assoc) SUB(from=n.as_deref();;to=n)
+@header
+    fn sticky_index_of_units<'a, C: ContentModel>(right: &ItemSlice<'a, C>, assoc: Assoc, encoding: OffsetKind, mut index: u32) -> (r: u32)
+@drop `let encoding = store.offset_kind;`
+@sig
+    requires
+        sticky_offset_spec(*right, assoc, encoding) <= u32::MAX,
+        // the anchored unit lies inside its block (ItemSlice: start <= end < ptr.len;  Item: len == content.len(Utf16))
+        right.start < right.ptr.content.len_spec(OffsetKind::Utf16),
+    ensures
+        !finding_s1_bytes_offset_kind(encoding) ==> r == sticky_position_spec(*right, assoc, encoding),
+        // FINDING S1: a clock offset is used as an index offset
+        finding_s1_bytes_offset_kind(encoding) ==> r == sticky_position_spec(*right, assoc, encoding),
+@start
+    proof {
+        lemma_visible_before(right.ptr.left, encoding);
+        if encoding == OffsetKind::Utf16 {
+            right.ptr.content.law_prefix_utf16(right.start as nat);
+            right.ptr.content.law_prefix_utf16((right.start + 1) as nat);
+        }
+    }
+@after 1 `stmt:assign index`
+    let ghost idx0 = index;
+@loop 1
+    invariant
+        index + visible_before(n, encoding) == idx0 + visible_before(right.ptr.left, encoding),
+        idx0 + visible_before(right.ptr.left, encoding) <= u32::MAX,
+    ensures
+        index == idx0 + visible_before(right.ptr.left, encoding),
+    decreases n,
+@*/
+
+// The two STEPS of the computation above once more, each lifted on its own.  Same source text; the point is the verdict
+// level: an edit of the first statement / of the loop body then fails a CONTRACT clause of a real-code function (post)
+// and not only the loop invariant spliced into `sticky_index_of` (a proof hint).
+//   step 1: what the anchor itself contributes
+/*@extract yrs/src/sticky_index.rs | impl StickyIndex | region get_offset | stmt=stmt:assign index | stmtnth=1 | tail=index | label=sticky_anchor_part | rules=SUB(from=self.assoc;;to=assoc)
+@header
+    fn sticky_anchor_part<'a, C: ContentModel>(right: &ItemSlice<'a, C>, assoc: Assoc, encoding: OffsetKind, mut index: u32) -> (r: u32)
+@sig
+    requires
+        anchor_part(view_of(right.ptr, encoding), right.start, assoc) <= u32::MAX,
+    ensures
+        r == anchor_part(view_of(right.ptr, encoding), right.start, assoc),
+@*/
+
+//   step 2: what one element to the left contributes (the body of the `while let` loop without the link step)
+/*@extract yrs/src/sticky_index.rs | impl StickyIndex | region get_offset | stmt=stmt:if | stmtnth=4 | tail=index | label=sticky_left_step
+@header
+    fn sticky_left_step<'a, C: ContentModel>(item: &Item<'a, C>, encoding: OffsetKind, mut index: u32) -> (r: u32)
+@sig
+    requires
+        index + units(view_of(item, encoding)) <= u32::MAX,
+    ensures
+        r == index + units(view_of(item, encoding)),
 @*/
 
 // the `IndexScope::Nested` arm (type-scoped sticky index)
